@@ -1,10 +1,11 @@
 """C02 — market-level property: theorems in lean/PamsProps/C02.lean, tie = Driver/Market.lean"""
 import market_checks
+import py_checks
 
 PROP = "C02"
 LEAN_MODULES = ["PamsProps.C02"]
 NAMESPACES = ["Pams.C02"]
-DRIVERS = ["Market", "Sim"]
+DRIVERS = ["Market", "Sim", "PyRun"]
 TRUSTED = [
     "modelled, not verified: heapq (abstracted to the sorted list; pop order compared on every state), Order.__eq__-based list.remove, IEEE doubles used only through <,== (monotone integer keys)",
     "generators/abstraction in harness/impl_market.py",
@@ -31,6 +32,7 @@ def _sims(ctx, n, res):
 
 def run(ctx, model_available=True):
     res = market_checks.run_market_property(ctx, PROP, model_available=model_available)
+    res = py_checks.merge(res, ctx, ["order"], n_each=80, model_available=model_available)
     return _sims(ctx, 12 * (ctx.scale if ctx.tier == "thorough" else 1), res)
 
 
